@@ -56,6 +56,8 @@ ExistenceMonotone == (Checked /\ Mode = "bands") => \A i, j \in DOMAIN Probs : L
 \* ---- routing ------------------------------------------------------------------------------
 \* dose = 1: the row carries a dose amount; dur = 1: it carries a duration.  A dose without a duration is a bolus and still a
 \* dose row; a duration without a dose is not a dose row.
+\* (the row sets below range over two individuals; cohorts of 1 .. 25 individuals -- more than any colour palette holds -- are
+\* replayed by harness/replay_plots.py cohort_checks against the same RoutingOK)
 RowSet == [id : 1..2, obs : {"A", "B", "none"}, t : 1..2, v : 1..2, dose : 0..1, dur : 0..1]
 PL_Rng(s) == {s[i] : i \in DOMAIN s}
 RECURSIVE FirstOccIds(_, _)
